@@ -14,13 +14,14 @@ use crate::{
         input_json_extensions::InputJsonExtensions, input_plugin::InputPlugin, InputPluginError,
     },
 };
+use geo::Centroid;
 use geo_types::Coord;
 use routee_compass_core::{
     model::network::edge_id::EdgeId,
-    model::unit::{as_f64::AsF64, Distance, DistanceUnit, BASE_DISTANCE_UNIT},
+    model::unit::{Distance, DistanceUnit, BASE_DISTANCE_UNIT},
     util::{
         fs::{read_decoders, read_utils},
-        geo::geo_io_utils::read_linestring_text_file,
+        geo::{geo_io_utils::read_linestring_text_file, haversine},
     },
 };
 use rstar::RTree;
@@ -189,10 +190,7 @@ fn search(
     vehicle_parameters: &Option<VehicleParameters>,
 ) -> Result<Option<EdgeId>, InputPluginError> {
     let point = geo::Point(coord);
-    for (record, distance_meters) in rtree.nearest_neighbor_iter_with_distance_2(&point) {
-        if !within_tolerance(tolerance, &distance_meters) {
-            return Ok(None);
-        }
+    for record in rtree.nearest_neighbor_iter(&point) {
         let valid_class = match (road_classes, road_class_lookup) {
             (Some(valid_classes), Some(lookup)) => {
                 let this_class = lookup.get(record.edge_id.0).ok_or_else(|| {
@@ -219,7 +217,13 @@ fn search(
             _ => true,
         };
         if valid_class && valid_truck {
-            return Ok(Some(record.edge_id));
+            // the tolerance is a great-circle distance; the r-tree ranks by squared degrees
+            let distance_meters = distance_to_record_meters(&coord, record)?;
+            if within_tolerance(tolerance, &distance_meters) {
+                return Ok(Some(record.edge_id));
+            } else {
+                return Ok(None);
+            }
         }
     }
     Ok(None)
@@ -237,15 +241,30 @@ fn matching_error(
     InputPluginError::InputPluginFailed(message)
 }
 
+/// great-circle distance in meters from the query coordinate to the reference point
+/// (centroid) the r-tree uses for this record
+fn distance_to_record_meters(
+    coord: &Coord<f32>,
+    record: &EdgeRtreeRecord,
+) -> Result<Distance, InputPluginError> {
+    let centroid = record.geometry.centroid().ok_or_else(|| {
+        InputPluginError::InputPluginFailed(format!(
+            "edge rtree geometry for edge {} is empty",
+            record.edge_id
+        ))
+    })?;
+    haversine::coord_distance_meters(coord, &centroid.0).map_err(InputPluginError::InputPluginFailed)
+}
+
 /// helper to test if some distance in meters is within the optionally-provided tolerance
-fn within_tolerance(tolerance: Option<(Distance, DistanceUnit)>, distance_meters: &f32) -> bool {
+fn within_tolerance(
+    tolerance: Option<(Distance, DistanceUnit)>,
+    distance_meters: &Distance,
+) -> bool {
     match tolerance {
         None => true,
         Some((tolerance, distance_unit)) => {
-            let tolerance_meters = distance_unit
-                .convert(&tolerance, &DistanceUnit::Meters)
-                .as_f64() as f32;
-
+            let tolerance_meters = distance_unit.convert(&tolerance, &DistanceUnit::Meters);
             distance_meters <= &tolerance_meters
         }
     }
